@@ -356,6 +356,45 @@ def run(world, rep, tier, only=None):
         rep.ob("C08.i", site(isf, "superblock field %s follows a renumbered inode" % fld), bool(st),
                "inode_scan_and_fix() stores the new inode number into super->%s" % fld)
 
+    # ------------------------------------------------------------------ C08.j a shortened bad-block list reaches the bad-block inode
+    # block_mover() does not move bad blocks that are in the way (beyond the new end, under new metadata): it takes them
+    # off the list and sets bb_modified.  On every path on which it then reports success the list is written back with
+    # ext2fs_update_bb_inode() - also when nothing else had to move - or inode 1 keeps mapping blocks past the end.
+    bmv = prog.fn("block_mover", RZ)
+    marks_ = [n for n in bmv.events("S") if T.path(n.ev["lhs"]) == "bb_modified" and T.const(n.ev.get("rhs")) not in (None, 0) or
+              (T.path(n.ev["lhs"]) == "bb_modified" and n.ev.get("o") in ("++", "+="))]
+    upd = calls_to(bmv, "ext2fs_update_bb_inode")
+    rep.floor("C08.j bb_modified marks / write-back in block_mover", min(len(marks_), len(upd)), 1)
+    exj = absint.Explorer(bmv, prog)
+    for i, m_ in enumerate(marks_):
+        # what is known where the mark is made: the flag is non-zero from here on, and so is every variable a
+        # controlling test of the mark found non-zero (the list itself)
+        env0 = {"bb_modified": "NZ"}
+        for t, a_ in control_lits(bmv, m_):
+            if t is True and T.path(a_) and T.strip(a_).get("k") == "v":
+                env0[T.path(a_)] = "NZ"
+            # a membership test that answered "yes" was asked of an existing list
+            a0_ = T.strip(a_)
+            if t is True and isinstance(a0_, dict) and a0_.get("k") == "c" and (a0_.get("fn") or "").endswith("_test"):
+                for x_ in a0_.get("a", [])[:1]:
+                    if T.path(x_) and T.strip(x_).get("k") == "v":
+                        env0[T.path(x_)] = "NZ"
+        # (the flag only ever goes up - no store lowers it - so a later test of it has one outcome)
+        lowered = [n for n in bmv.events("S") if T.path(n.ev["lhs"]) == "bb_modified" and n.ev.get("o") in ("--", "-=") or
+                   (T.path(n.ev["lhs"]) == "bb_modified" and n.ev.get("o") == "=" and n is not m_ and bmv.entry_node() not in bmv.reach_back([n], avoid=[m_]))]
+
+        def still_set(nn, si, m, _f=bmv):
+            lit = _f.literal(nn.bid)
+            if lit and T.path(lit[0]) == "bb_modified" and not lowered:
+                return ((si == 0) == lit[1])
+            return True
+        terms = exj.run(bmv.after(m_), env0=env0, edge_ok=still_set,
+                        on_node=lambda node, env, fl, _u=set(upd): (fl | {"written"}) if node in _u else fl)
+        quiet = sorted({node.line for (node, env, fl, st) in terms if node.ev and node.ev["e"] == "R" and "written" not in fl and
+                        not absint._nz(exj.eval(node.ev.get("x"), env))})
+        rep.ob("C08.j", site(bmv, "shortened bad-block list written back on every successful return#%d" % i), not quiet,
+               "returns that may be 0 after `bb_modified` was set without ext2fs_update_bb_inode(): lines %s" % quiet)
+
     # ------------------------------------------------------------------ C08.h a helper that changes the caller's inode says so
     # migrate_ea_block() re-points i_file_acl in the inode copy it is given; inode_scan_and_fix() writes that copy back
     # only when the helper raised *changed.  Every successful return after the re-pointing must have raised it.
